@@ -22,6 +22,11 @@ CHECKS = {
   "Seeded search over rule-set histories (create/update/delete/unapplicable changes over three sources with colliding path expressions) executed on the real rule factory, rule-set processor, repository and radix tree; after every operation ~370 probes are compared with a freshly loaded instance (any source load order). A clean batch is evidence over the sampled histories, not a proof; this is the right level because the property quantifies over unbounded histories of a mutable index.",
   "Trusts: the probe set derived from the expression pool is discriminating; providers issue legal call sequences (checked under C18); Go toolchain go1.26.8; the stub authenticator is irrelevant to matching.",
   "DESIGN.md section 3 C06"),
+"C07": ("repo-sched",
+  "seeded cooperative scheduler over lock shims and inserted yield points, Go race detector, porcupine linearizability check of the recorded history against the same code run sequentially",
+  "Seeded search over interleavings of 2-3 rule-set writers (one per source) and 1-2 readers on the real repository and radix tree, compiled from a generated copy whose locks park at a seeded scheduler; every run is executed under the race detector (scheduler hand-offs hidden from it) and its history plus a final lookup sweep is checked for linearizability with porcupine; deadlocks and task panics are violations. Evidence over the sampled schedules, not a proof.",
+  "Trusts: interleavings matter only at lock operations, inserted yield points and (through the happens-before race detector) unsynchronised accesses; the race detector's report for a given schedule is not fully deterministic (4 shadow cells per word), so replays of data races re-execute the schedule up to 12 times; sync.Pool is compiled so that it never recycles objects in these binaries; porcupine timeouts count as inconclusive.",
+  "DESIGN.md section 3 C07"),
 }
 
 PENDING = [p for p in ["C01","C04","C07","C10","C11","C16","C17","C18","C19"] if p not in CHECKS]
@@ -47,6 +52,7 @@ def main():
     na.sort(key=lambda x: x["property_id"])
     engines = [
       {"name":"repo-history","path":"/verif/harness/internal/rules","serves_properties":["C06"],"kind_free_text":"sequential reference-model conformance over seeded operation histories (real factory, processor, repository, radix tree)"},
+      {"name":"repo-sched","path":"/verif/harness/internal/rules","serves_properties":["C07"],"kind_free_text":"seeded cooperative scheduler (simsync) + race detector + porcupine over the instrumented repository"},
     ]
     m = {
      "version":1,
